@@ -152,6 +152,7 @@ func runC09(w *World, tier string) (bool, interface{}) {
 	}
 	c := NewCluster(w, n)
 	c.L.Faults.PermuteResults = true
+	c.L.Faults.BoardDownAtSubmit = w.Tape.Bool(1, 2, "boardOutages") // single submissions refused by the board; operators submit again
 	members := AllMembers(n)
 	budget := 3 + w.Tape.Choose(4, "mutants")
 	injected := 0
